@@ -68,8 +68,11 @@ def check(cx):
     if not okm:
         r1.violation('ChannelModes::new_for_channel|shape', 'a new channel\'s modes are not the defaults plus founders/operators = {creator}', loc=fm)
 
-    r2 = cx.rule('R16.2', 'destruction', floor=1, kind='reference')
-    r2.instance('deletion site census (this check) + condition (C06 R6.4) + funnel (C04 R4.1)')
+    r2 = cx.rule('R16.2', 'destruction', floor=6, kind='census+equivalence')
+    from .C04 import rule_membership_funnel
+    from .C06 import rule_channel_deletion
+    rule_membership_funnel(cx, r2)     # every way of leaving goes through remove_user_from_channel
+    rule_channel_deletion(cx, r2)      # which deletes the channel exactly when it became empty and is not preconfigured
 
     r3 = cx.rule('R16.3', 'configured channels', floor=3, kind='shape')
     fc = cx.fn('new_from_config', 'VolatileState')
